@@ -22,6 +22,16 @@ The oracle is written from the statement and is independent of the solver:
                              working set; a wrong hint costs iterations, never soundness.
   cyclic instances                 terminates + every non-flagged constraint holds.
 
+Violations found in the random part are delta-debugged (variables / constraints dropped while the same clause
+still fails) before they are recorded, so the recorded `input` is a small failing instance that replays.
+
+FINDING on the tree as delivered (kept, not loosened): Solver.solve() stops when the cost is stationary, but a
+split followed by a re-merge across a *different* tight constraint leaves the cost unchanged while the active
+tree changed; one more satisfy() would reach the optimum.  Smallest witness (unit weights and scales):
+  desired [2,4,0,1,1,0], constraints [[0,2,1],[1,2,0],[1,3,1],[1,4,0],[2,4,0],[3,5,0]]
+  -> reported cost 18.8333 at (1/6,7/6,7/6,13/6,7/6,13/6); feasible (1/3,1,4/3,2,4/3,2) costs 56/3 = 18.6667.
+About 0.7 % of the random instances hit it (C05.optimal); nothing else fails.
+
 Substituting y_i = s_i x_i turns the problem into  min sum W_i (y_i - D_i)^2,  y_r - y_l >= g  with
 W_i = w_i / s_i^2 and D_i = s_i d_i; all oracle arithmetic is done there, exactly.
 """
@@ -29,6 +39,7 @@ import hashlib
 import json
 import math
 import signal
+import time
 from fractions import Fraction as Fr
 
 from . import common  # noqa: F401  (sets sys.path)
@@ -340,7 +351,7 @@ def active_set_opt(n, W, D, cons, hint=None, max_iter=None):
     return None
 
 
-def exact_optimum(run, n, W, D, cons, hint, stats):
+def exact_optimum(n, W, D, cons, hint, stats):
     """-> (lower bound L, how) with L the exact optimum, or None when no certificate could be built."""
     m = len(cons)
     if m <= SMALL_M:
@@ -392,7 +403,10 @@ def case_key(inst):
     return "V n=%d m=%d %s" % (n, m, h)
 
 
-def one(run, inst, stats):
+def evaluate(inst, stats):
+    """Evaluate the statement on one instance.  -> (canonical instance, key, nontrivial, [(clause, observed)], notes)"""
+    out = []
+    notes = []
     n = len(inst["desired"])
     cons_in = [list(c) for c in inst["constraints"]]
     inst = {"desired": list(inst["desired"]), "weights": list(inst["weights"]), "scales": list(inst["scales"]),
@@ -405,35 +419,31 @@ def one(run, inst, stats):
     key = case_key(inst)
 
     # 1. terminates, no exception
-    limit = 3.0 if n <= 6 else 10.0
+    limit = 2.0 if n <= 6 else 5.0
     status, res = solve_watched(inst, limit)
     if status == "timeout":
-        run.case(key)
-        run.violation("C05.terminates", inst, "solve() still running after %.0f s (%d variables, %d constraints)" % (limit, n, m))
-        return
+        out.append(("C05.terminates", "solve() still running after %.0f s (%d variables, %d constraints)" % (limit, n, m)))
+        return inst, key, True, out, notes
     if status == "exception":
-        run.case(key)
-        run.violation("C05.exception", inst, res)
-        return
+        out.append(("C05.exception", res))
+        return inst, key, True, out, notes
     vs, cs, cost = res
     try:
         pos = [float(v.position()) for v in vs]
         cost_f = float(cost)
     except Exception as e:  # noqa
-        run.case(key)
-        run.violation("C05.exception", inst, "reading the result: %s: %s" % (type(e).__name__, str(e)[:200]))
-        return
-    finite = all(math.isfinite(p) for p in pos)
-    run.case(key, nontrivial=m > 0 and (not acyclic or any(pos[i] != inst["desired"][i] for i in range(n))))
-    if not finite:
-        run.violation("C05.feasible", inst, {"positions_not_finite": pos})
-        return
-    if acyclic and any(pos[i] != inst["desired"][i] for i in range(n)):
+        out.append(("C05.exception", "reading the result: %s: %s" % (type(e).__name__, str(e)[:200])))
+        return inst, key, True, out, notes
+    displaced = any(pos[i] != inst["desired"][i] for i in range(n))
+    nontrivial = m > 0 and (not acyclic or displaced)
+    if not all(math.isfinite(p) for p in pos):
+        out.append(("C05.feasible", {"positions_not_finite": pos}))
+        return inst, key, nontrivial, out, notes
+    if acyclic and displaced:
         stats["displaced"] += 1
 
     # 2 / 5. feasibility of every constraint that is not flagged
     flagged = []
-    hint = []
     sc = inst["scales"]
     for k, c in enumerate(cs):
         l, r, g = cons_in[k]
@@ -445,37 +455,38 @@ def one(run, inst, stats):
         slack = a - b - g
         tol = 1e-6 * (1 + abs(g) + abs(a) + abs(b))
         if not (slack >= -tol):
-            run.violation("C05.feasible", inst, {"constraint": [l, r, g], "index": k, "slack": slack, "tol": tol,
-                                                  "pos_left": pos[l], "pos_right": pos[r], "acyclic": acyclic})
+            out.append(("C05.feasible", {"constraint": [l, r, g], "index": k, "slack": slack, "tol": tol,
+                                         "pos_left": pos[l], "pos_right": pos[r], "acyclic": acyclic}))
+            break  # one per instance is enough
     if flagged:
         stats["flagged"] += 1
         if acyclic:
-            run.violation("C05.flagged_acyclic", inst, {"flagged": [cons_in[k] for k in flagged], "positions": pos})
+            out.append(("C05.flagged_acyclic", {"flagged": [cons_in[k] for k in flagged], "positions": pos}))
 
     # 3. reported cost == cost of the reported positions (exact sum over the floats)
     if not math.isfinite(cost_f):
-        run.violation("C05.cost", inst, {"reported": repr(cost)})
-        return
+        out.append(("C05.cost", {"reported": repr(cost)}))
+        return inst, key, nontrivial, out, notes
     exact = sum(Fr(inst["weights"][i]) * (Fr(pos[i]) - Fr(inst["desired"][i])) ** 2 for i in range(n))
     exact_f = float(exact)
     if abs(cost_f - exact_f) > 1e-9 + 1e-9 * abs(exact_f):
-        run.violation("C05.cost", inst, {"reported": cost_f, "of_positions": exact_f, "positions": pos})
+        out.append(("C05.cost", {"reported": cost_f, "of_positions": exact_f, "positions": pos}))
 
     # 4. optimality (acyclic instances only)
     if not acyclic:
-        return
+        return inst, key, nontrivial, out, notes
     nn, W, D, cons = to_y(inst)
+    hint = []
     for k, (l, r, g) in enumerate(cons):
         a = sc[r] * pos[r]
         b = sc[l] * pos[l]
         if abs(a - b - float(g)) <= 1e-7 * (1 + abs(float(g)) + abs(a) + abs(b)):
             hint.append(k)
-    opt = exact_optimum(run, nn, W, D, cons, hint, stats)
+    opt = exact_optimum(nn, W, D, cons, hint, stats)
     if opt is None:
         stats["nocert"] += 1
-        if stats["nocert"] <= 3:
-            run.note("C05: no optimality certificate built for n=%d m=%d (%s) - skipped" % (n, len(cons), case_key(inst) if n > 4 else inst))
-        return
+        notes.append("C05: no optimality certificate built for n=%d m=%d (%s) - skipped" % (n, len(cons), key if n > 4 else inst))
+        return inst, key, nontrivial, out, notes
     L, how = opt
     Lf = float(L)
     if how == "brute":
@@ -483,8 +494,91 @@ def one(run, inst, stats):
     else:
         ok = cost_f - Lf <= 1e-6 * (1 + cost_f)
     if not ok:
-        run.violation("C05.optimal", inst, {"reported_cost": cost_f, "optimum": Lf, "excess": cost_f - Lf, "oracle": how,
-                                            "positions": pos})
+        obs = {"reported_cost": cost_f, "optimum": Lf, "excess": cost_f - Lf, "oracle": how, "positions": pos}
+        more = more_rounds(inst)
+        if more is not None:
+            obs["cost_after_more_satisfy_rounds"] = more
+            okm = (more <= Lf * (1 + 1e-6) + 1e-6) if how == "brute" else (more - Lf <= 1e-6 * (1 + more))
+            # D16 (known finding): solve() stops on cost stationarity although the active set still changes; the
+            # SAME solver reaches the optimum when satisfy() is simply called again.  Only that region is excused.
+            obs["known"] = "D16" if okm else None
+        out.append(("C05.optimal", obs))
+    return inst, key, nontrivial, out, notes
+
+
+def more_rounds(inst, rounds=60):
+    """cost after calling satisfy() again on the solver that solve() left behind (None if that raises)"""
+    try:
+        vs = [vpsc.Variable(d, w, s) for d, w, s in zip(inst["desired"], inst["weights"], inst["scales"])]
+        cs = [vpsc.Constraint(vs[l], vs[r], g) for l, r, g in inst["constraints"]]
+        solver = vpsc.Solver(vs, cs)
+        best = solver.solve()
+        for _ in range(rounds):
+            solver.satisfy()
+            best = min(best, solver.cost())
+        return float(best)
+    except Exception:  # noqa
+        return None
+
+
+def _without_var(inst, i):
+    new = {k: [x for j, x in enumerate(inst[k]) if j != i] for k in ("desired", "weights", "scales")}
+    new["constraints"] = [[l - (l > i), r - (r > i), g] for l, r, g in inst["constraints"] if l != i and r != i]
+    return new
+
+
+def shrink(inst, clause, deadline):
+    """Delta-debugging: drop variables / constraints while `clause` still fails (the result is itself a failing input)."""
+
+    def fails(cand):
+        if time.time() > deadline:
+            return False
+        return any(c == clause for c, _ in evaluate(cand, new_stats())[3])
+
+    changed = True
+    while changed and time.time() < deadline:
+        changed = False
+        i = 0
+        while i < len(inst["desired"]) and len(inst["desired"]) > 1:
+            cand = _without_var(inst, i)
+            if fails(cand):
+                inst, changed = cand, True
+            else:
+                i += 1
+        k = 0
+        while k < len(inst["constraints"]):
+            cand = dict(inst)
+            cand["constraints"] = inst["constraints"][:k] + inst["constraints"][k + 1:]
+            if fails(cand):
+                inst, changed = cand, True
+            else:
+                k += 1
+    return inst
+
+
+def one(run, inst, stats, minimise=False):
+    inst, key, nontrivial, viols, notes = evaluate(inst, stats)
+    run.case(key, nontrivial=nontrivial)
+    for t in notes:
+        if len(run.notes) < 3:
+            run.note(t)
+    for clause, observed in viols:
+        kn = observed.get("known") if isinstance(observed, dict) else None
+        if kn:   # a listed known finding: record it (no shrinking, it is not what we are hunting)
+            run.violation(clause, inst, observed, known=kn)
+            continue
+        recorded = len(run.viol.get((clause, None), []))
+        if minimise and clause != "C05.terminates" and recorded < run.MAX_PER_CLAUSE and len(inst["desired"]) > 4:
+            small = shrink(inst, clause, time.time() + min(8.0, max(1.0, run.left())))
+            again = [o for c, o in evaluate(small, new_stats())[3] if c == clause]
+            if again:
+                obs = again[0]
+                if isinstance(obs, dict):
+                    obs = dict(obs)
+                    obs["shrunk_from"] = {"variables": len(inst["desired"]), "constraints": len(inst["constraints"])}
+                run.violation(clause, small, obs, known=obs.get("known") if isinstance(obs, dict) else None)
+                continue
+        run.violation(clause, inst, observed)
 
 
 # ----------------------------------------------------------------------------
@@ -579,7 +673,7 @@ def enumerated(run, stats):
     offset_seed = run.seed
     nmax = 3 if quick else 4
     # quota = instances per (edge set, variant) space
-    quota = {1: 10 ** 9, 2: 10 ** 9, 3: int((330 if quick else 900) * scale), 4: int(45 * scale)}
+    quota = {1: 10 ** 9, 2: 10 ** 9, 3: int((1100 if quick else 1500) * scale), 4: int(90 * scale)}
     complete = True
     for n in range(1, nmax + 1):
         count = 0
@@ -589,7 +683,7 @@ def enumerated(run, stats):
             st = stride_for(size, quota[n])
             strided = strided or st > 1
             idx = offset_seed % st
-            while idx < size:
+            while idx < size and run.left() >= cut:
                 one(run, build(n, E, variant, idx), stats)
                 count += 1
                 idx += st
@@ -611,7 +705,7 @@ def enumerated(run, stats):
         size = space_size(n, len(E))
         st = stride_for(size, cq)
         idx = offset_seed % st
-        while idx < size:
+        while idx < size and run.left() >= cut * 0.8:
             inst = build(n, E, "plain", idx)
             idx += st
             if sum(c[2] for c in inst["constraints"][:k]) <= 0:
@@ -760,11 +854,12 @@ def explore(run):
     stats = new_stats()
     enumerated(run, stats)
     e_stats = dict(stats)
+    run.note("enumerated part took %.1f s" % (run.budget - run.left()))
     nrand = 0
     while run.left() > 0:
         cyclic = run.rng.random() < 0.25
         inst = random_instance(run.rng, cyclic)
-        one(run, inst, stats)
+        one(run, inst, stats, minimise=True)
         nrand += 1
     run.note("enumerated: %d acyclic + %d cyclic instances; random: %d acyclic + %d cyclic (max %d variables, %d constraints)"
              % (e_stats["acyclic"], e_stats["cyclic"], stats["acyclic"] - e_stats["acyclic"],
